@@ -3,6 +3,7 @@ import Driver.Proxy
 import FpVerif.Spec.JA3
 import FpVerif.Spec.Capture
 import FpVerif.Spec.H2Fp
+import FpVerif.Spec.JA4
 /-!
 `fpdriver`: reads one operation per line on stdin, answers one line per operation on stdout with the
 MODEL's (or the SPECIFICATION's) result. The definitions evaluated here are the ones the theorems in
@@ -178,6 +179,17 @@ def handle (cmd : String) (args : List String) : String :=
     | _, _ => "bad-op"
   | "h2fp", toks => (h2fpRun true toks).getD "bad-op"
   | "h2fpm", toks => (h2fpRun false toks).getD "bad-op"
+  | "ja4", [h] =>
+    match unhex h with
+    | some rec =>
+      match Fp.JA4.parseView rec with
+      | some v => (if Fp.JA4.hasOpaque v then "okif" else "ok") ++ s!" a={toHex (Fp.JA4.ja4a v)} b=sha12of:{toHex (Fp.JA4.ja4bInput v)} c=sha12of:{toHex (Fp.JA4.ja4cInput v)}"
+      | none => "err"
+    | none => "bad-op"
+  | "ja4spec", toks =>
+    match parseHello toks with
+    | some h => s!"ok a={toHex (Fp.Spec.JA4.partA h)} b=sha12of:{toHex (Fp.Spec.JA4.partBInput h)} c=sha12of:{toHex (Fp.Spec.JA4.partCInput h)}"
+    | none => "bad-op"
   | "rw", toks => (rwModel toks).getD "bad-op"
   | "rwspec05", toks => (rwSpec05 toks).getD "bad-op"
   | "rwspec09", toks => (rwSpec09 toks).getD "bad-op"
